@@ -668,6 +668,12 @@ def rule_sibling_writers_total(ctx) -> None:
     n = 0
     for fn in ctx.prog.all_funcs("clematis."):
         dumps = [x for x in walk_no_defs(fn.node) if isinstance(x, ast.Call) and dotted(x.func) == "json.dumps"]
+        # ... or in a helper of the same module that the writer calls (`f.write(_stable_json(record) + "\n")`)
+        for x in walk_no_defs(fn.node):
+            if isinstance(x, ast.Call):
+                r = ctx.prog.callee(fn, x)
+                if r and r[0] == "func" and r[1] in ctx.prog.funcs and ctx.prog.funcs[r[1]].module is fn.module:
+                    dumps += [y for y in walk_no_defs(ctx.prog.funcs[r[1]].node) if isinstance(y, ast.Call) and dotted(y.func) == "json.dumps"]
         if not dumps:
             continue
         for x in walk_no_defs(fn.node):
